@@ -447,7 +447,9 @@ def _check_sample(w, mid, n, condspec, fault, label='sample'):
     ctx = w.ctx
     L, T = w.live[mid], w.twin[mid]
     subject = _subject(L)
-    seeded = getattr(L, 'random_state', None) is not None
+    # whether the model is seeded follows from the HISTORY of constructor / set_random_state
+    # calls (set_random_state(None) un-seeds), not from what the object reports about itself
+    seeded = w.meta[mid]['seed_kind'] != 'none'
     cond_l, cond_t = _cond_for(L, condspec), _cond_for(T, condspec)
     g_before = np.random.get_state()
     pre_state = _model_state(L)
